@@ -34,8 +34,10 @@ m = {
     },
     "engines": [
         {"name": "ciwmc-stateless", "path": "/verif/ciwmc/explore.py",
-         "serves_properties": sorted(CHECKS),
+         "serves_properties": sorted(k for k in CHECKS if k != "C15"),
          "kind_free_text": "stateless exhaustive DFS over all environment answers (samples, routing, tie-breaks) of the real ciw.Simulation, deviation-bounded on large families, with canonical-state accounting and replay-determinism checks"},
+        {"name": "ciwmc-histories", "path": "/verif/ciwmc/props/c15.py", "serves_properties": ["C15"],
+         "kind_free_text": "exhaustive enumeration of bounded histories of public-API operations on the real generators, fresh-interpreter reference digests"},
     ],
     "checks": checks,
     "not_applicable": [{"property_id": p, "reason": PENDING.get(p, "check not built yet")} for p in props if p not in CHECKS],
